@@ -151,7 +151,7 @@ func c15Goroutines() c15Dump {
 			continue
 		}
 		d.total++
-		if strings.Contains(g, "mqttproxy.(*Broker).handleConn") {
+		if strings.Contains(g, "mqttproxy.(*Broker).handleConn(") {
 			d.conns++
 		}
 		// header: goroutine 12 [select, 2 minutes]:
@@ -280,14 +280,12 @@ func (c *c15Cli) reader() {
 
 // waitFor blocks until pred (evaluated under c.mu) holds, EOF, or the deadline.
 func (c *c15Cli) waitFor(pred func() bool) string {
-	done := make(chan struct{})
 	timer := time.AfterFunc(c15Deadline, func() {
 		c.mu.Lock()
 		c.cond.Broadcast()
 		c.mu.Unlock()
 	})
 	defer timer.Stop()
-	defer close(done)
 	end := time.Now().Add(c15Deadline)
 	c.mu.Lock()
 	defer c.mu.Unlock()
